@@ -12,6 +12,9 @@ Op lines (strings percent-encoded; `<hdrs>` = `_` or `k|v;k|v…`; `<list>` = `_
   reqsite <name>… / respsite <name>…   the real fold site on these objects     → spoe <n> <var>…
   reqpolicy <name>… / resppolicy <name>…  policy-mode fold site, one real remedy per object that
                                 produces an equal (fresh) action                → spoe <n> <var>…
+  legacyreq h=<hdrs> <remedy>…  runner.DispatchOnRequest, request headers h, real remedies → spoe <n> <var>…
+  legacyresp status=<int> <remedy>…  runner.DispatchOnResponse                  → spoe <n> <var>…
+      <remedy> = fixed=<int> | acct=<hdrs> | apikey=<hdrs> | oauth=<s> | retry=<n>,<lo>,<hi>
 -/
 open LunarVerif LunarVerif.Proto LunarVerif.C07
 
@@ -155,6 +158,23 @@ def parseSpoe (ws : List String) : Option (List SVar) :=
     | _, _ => none
   | _ => none
 
+def parseRemedy (w : String) : Option Remedy := do
+  let (k, v) ← splitFirst w '='
+  match k with
+  | "fixed" => v.toInt?.map .fixed
+  | "acct" => (parseHdrs v).map .acct
+  | "apikey" => (parseHdrs v).map .apikey
+  | "oauth" =>
+    let sec := pctDec v
+    if sec.toList.all Char.isAlphanum then some (.oauth sec) else none
+  | "retry" =>
+    match v.splitOn "," with
+    | [n, lo, hi] => do
+      let n ← n.toNat?; let lo ← lo.toInt?; let hi ← hi.toInt?
+      pure (.retry n lo hi)
+    | _ => none
+  | _ => none
+
 /-! ### which actions the harness can obtain from a real remedy (see harness/go/cmd/c07/policy.go) -/
 
 def reqExpressible : ReqAct → Bool
@@ -230,6 +250,14 @@ def runStep (s : RunSt) (line : String) : RunSt × String :=
     | none =>
       let vals := names.filterMap fun n => (s.store.lookup n).bind Obj.asResp
       (s, fmtEnc (encodeResp (foldResp vals)))
+  | "legacyreq" :: h :: rems =>
+    match (if h.startsWith "h=" then parseHdrs (h.drop 2).toString else none), rems.mapM parseRemedy with
+    | some H0, some rs => (s, fmtEnc (encodeReq (legacyReq H0 rs)))
+    | _, _ => (s, "bad-op")
+  | "legacyresp" :: st :: rems =>
+    match kvInt [st] "status", rems.mapM parseRemedy with
+    | some status, some rs => (s, fmtEnc (encodeResp (legacyResp status rs)))
+    | _, _ => (s, "bad-op")
   | "reqpolicy" :: names =>
     match names.findSome? (fun n => match s.store.lookup n with
         | none => some "err:unknown-object"
@@ -305,6 +333,17 @@ def judgeStep (s : JudgeSt) (op out : String) : JudgeSt :=
       let all := s.names ++ names
       { s with names := all, obs := (.reqSite ins vs, all) :: s.obs }
     | _, _ => { s with bad := some ("unparsable-answer:" ++ pctEnc out) }
+  | "legacyreq" :: h :: rems =>
+    if out.startsWith "err:" || out == "bad-op" then s else
+    match (if h.startsWith "h=" then parseHdrs (h.drop 2).toString else none), rems.mapM parseRemedy,
+          parseSpoe (words out) with
+    | some H0, some rs, some vs => { s with obs := (.legacyReq H0 rs vs, s.names) :: s.obs }
+    | _, _, _ => { s with bad := some ("unparsable-answer:" ++ pctEnc out) }
+  | "legacyresp" :: st :: rems =>
+    if out.startsWith "err:" || out == "bad-op" then s else
+    match kvInt [st] "status", rems.mapM parseRemedy, parseSpoe (words out) with
+    | some status, some rs, some vs => { s with obs := (.legacyResp status rs vs, s.names) :: s.obs }
+    | _, _, _ => { s with bad := some ("unparsable-answer:" ++ pctEnc out) }
   | "reqpolicy" :: names =>
     if out.startsWith "err:" then s else
     match names.mapM (fun n => (s.defs.lookup n).bind Obj.asReq), parseSpoe (words out) with
@@ -343,6 +382,13 @@ def explain : Obs × List String → Option String
     if respSiteHolds ins enc then none
     else
       some s!"- response-fold-site-variables-violate-the-rule n={ins.length} enc={pctEnc (fmtEnc enc)}"
+
+  | (.legacyReq H0 rs enc, _) =>
+    if legacyReqHolds H0 rs enc then none
+    else some s!"- legacy-request-dispatch-violates-the-rule remedies={rs.length} enc={pctEnc (fmtEnc enc)}"
+  | (.legacyResp st rs enc, _) =>
+    if legacyRespHolds st rs enc then none
+    else some s!"- legacy-response-dispatch-violates-the-rule remedies={rs.length} enc={pctEnc (fmtEnc enc)}"
 
 def judgeFinish (s : JudgeSt) : String :=
   match s.bad with
